@@ -203,9 +203,15 @@ def extract_memo(cls, meth):
     if not (len(look.body) == 1 and isinstance(look.body[0], ast.For)):
         raise Shape(f"COO.{meth}: lookup is not a single for loop")
     loop = look.body[0]
-    slot_l = _slot_of(loop.iter)
+    it = loop.iter
+    # the deque itself, or a snapshot of it: tuple(self._cache[...]) / list(...) — same entries, same order
+    snapshot = (isinstance(it, ast.Call) and isinstance(it.func, ast.Name) and it.func.id in ("tuple", "list")
+                and len(it.args) == 1 and not it.keywords)
+    if snapshot:
+        it = it.args[0]
+    slot_l = _slot_of(it)
     if slot_l is None or loop.orelse:
-        raise Shape(f"COO.{meth}: lookup does not iterate self._cache[<const>]")
+        raise Shape(f"COO.{meth}: lookup does not iterate self._cache[<const>] (or a tuple()/list() snapshot of it)")
     if not (isinstance(loop.target, ast.Tuple) and len(loop.target.elts) == 2
             and all(isinstance(x, ast.Name) for x in loop.target.elts)):
         raise Shape(f"COO.{meth}: lookup loop target is not a pair of names")
@@ -263,7 +269,7 @@ def extract_memo(cls, meth):
         "slot_lookup": slot_l, "slot_store": slot_s, "lookup_key": lookup_key, "store_key": store_key,
         "result_deps": deps, "cmp_eq": cmp_eq, "returns_entry_value": returns_entry_value,
         "stores_result": stores_result, "key_stable": key_stable, "shortcuts_first": shortcuts_first,
-        "guarded_alike": guarded_alike,
+        "guarded_alike": guarded_alike, "lookup_iterates_snapshot": snapshot,
         "source_sha": hashlib.sha256(ast.unparse(fn).encode()).hexdigest()[:12],
     }
 
@@ -375,7 +381,8 @@ def gen_cache(repo):
         L.append(f"Definition {m}_lookup_key : list string := {coq_strs(d['lookup_key'])}.")
         L.append(f"Definition {m}_store_key : list string := {coq_strs(d['store_key'])}.")
         L.append(f"Definition {m}_result_deps : list string := {coq_strs(d['result_deps'])}.")
-        for k in ("cmp_eq", "returns_entry_value", "stores_result", "key_stable", "shortcuts_first", "guarded_alike"):
+        for k in ("cmp_eq", "returns_entry_value", "stores_result", "key_stable", "shortcuts_first", "guarded_alike",
+                  "lookup_iterates_snapshot"):
             L.append(f"Definition {m}_{k} : bool := {coq_bool(d[k])}.")
         L.append("")
     for m, d in attrs.items():
